@@ -44,7 +44,6 @@ use std::{
 };
 
 use dashmap::DashMap;
-use parking_lot::RwLock;
 use rayon::prelude::*;
 use serde::{Deserialize, Serialize};
 use tensor_store::RelationalSlab;
@@ -61,6 +60,8 @@ pub(crate) use transaction::{Deadline, IndexChange, UndoEntry};
 pub use transaction::{Transaction, TransactionManager, TxPhase};
 
 mod simd;
+mod sync_compat;
+use sync_compat::RwLock;
 
 pub mod cursor;
 pub mod observability;
